@@ -3,6 +3,7 @@
 import PS.Proofs.Enum.UFrame
 import PS.Proofs.Enum.UHeaps
 import PS.Proofs.Enum.HeapRoot
+import PS.Proofs.Enum.UEmpty
 namespace PS.UHS
 open PS PS.G
 set_option linter.unusedSectionVars false
@@ -250,9 +251,36 @@ def Uninit (s : St U π) (nt : UNT U) : Prop :=
 def Mid (s : St U π) (nt : UNT U) : Prop :=
   s.initS.contains nt = true ∧ s.heapOf nt = [] ∧ s.succOf nt = [] ∧ s.seenOf nt = []
 
+/-- the argument position `j` of a popped program `F(args)` of `nt` has been treated by
+    `__add_successors_to_heap__`: the program with the successor of the argument was added, or the
+    non-terminal of the argument is exhausted -/
+def SuccDone (s : St U π) (nt : UNT U) (F : Sym) (args : List Prog) (j : Nat) (aj : Prog) (sj : UNT U) : Prop :=
+  (∃ q, AList.lookup (some aj) (s.succOf sj) = some q ∧ Tree.node F (args.set j q) ∈ s.seenOf nt) ∨
+  (s.initS.contains sj = true ∧ s.heapOf sj = [] ∧ AList.lookup (some aj) (s.succOf sj) = none)
+
+/-- **completeness invariant of an initialised non-terminal** (no threshold, no filter); `e`, `i`: the
+    program whose successors are being added and the positions (`< i`) still to be treated -/
+structure CInv (E : Env U π) (rank : UNT U → Nat) (s : St U π) (nt : UNT U) (e : Option Prog) (i : Nat) : Prop where
+  keyed : ∀ p, p ∈ s.seenOf nt → ∃ v, AList.lookup (nt, p) s.keys = some v
+  /-- the initial program of every alternative was pushed -/
+  initial : ∀ F v w, (v, w) ∈ altsOf E nt F → ∃ kids, Tree.node F kids ∈ s.seenOf nt ∧ kids.length = v.length ∧
+    ∀ (j : Nat) (aj : Prog) (sj : UNT U), kids[j]? = some aj → v[j]? = some sj →
+      AList.lookup none (s.succOf sj) = some aj
+  /-- (I2) what was ever pushed is in the heap or was popped -/
+  cover : ∀ p, p ∈ s.seenOf nt → p ∈ s.heapProgs nt ∨ Popped s nt p
+  /-- (I3) every argument position of every popped program has been treated -/
+  succs : ∀ (F : Sym) (args : List Prog) (v : List (UNT U)), Popped s nt (Tree.node F args) →
+    AList.lookup (nt, Tree.node F args) s.keys = some v →
+    ∀ (j : Nat) (aj : Prog) (sj : UNT U), args[j]? = some aj → v[j]? = some sj → rank sj < rank nt →
+      (e = some (Tree.node F args) → i ≤ j) → SuccDone s nt F args j aj sj
+
+/-- fully initialised: the order and completeness invariants, the first query done -/
+def Full (E : Env U π) (rank : UNT U → Nat) (s : St U π) (nt : UNT U) : Prop :=
+  NTInv E s nt ∧ s.succOf nt ≠ [] ∧ CInv E rank s nt none 0
+
 /-- every non-terminal of rank below `r` is untouched or fully initialised -/
 def Below (E : Env U π) (rank : UNT U → Nat) (r : Nat) (s : St U π) : Prop :=
-  ∀ nt, rank nt < r → Uninit s nt ∨ (NTInv E s nt ∧ s.succOf nt ≠ [])
+  ∀ nt, rank nt < r → Uninit s nt ∨ Full E rank s nt
 
 theorem NTInv.transfer {E : Env U π} {s s' : St U π} {nt : UNT U} (h : NTInv E s nt) (hs : Same s s' nt)
     (hst : Stable s s') : NTInv E s' nt := by
@@ -273,6 +301,36 @@ theorem NTInv.transfer {E : Env U π} {s s' : St U π} {nt : UNT U} (h : NTInv E
     rw [hs.succ] at hk
     exact h.sorted k x hk
 
+theorem CInv.transfer {E : Env U π} {rank : UNT U → Nat} {s s' : St U π} {nt : UNT U} {e : Option Prog} {i : Nat}
+    (h : CInv E rank s nt e i) (hs : Same s s' nt) (hst : Stable s s')
+    (hk : ∀ sj, rank sj < rank nt → Kept s s' sj) : CInv E rank s' nt e i := by
+  have hpop : ∀ x, Popped s' nt x ↔ Popped s nt x := by intro x; unfold Popped; rw [hs.succ]
+  refine ⟨?_, ?_, ?_, ?_⟩
+  · intro p hp
+    rw [hs.seen] at hp
+    rw [hs.keys]
+    exact h.keyed p hp
+  · intro F v w hm
+    obtain ⟨kids, h1, h2, h3⟩ := h.initial F v w hm
+    exact ⟨kids, by rw [hs.seen]; exact h1, h2, fun j aj sj a b => hst _ _ _ (h3 j aj sj a b)⟩
+  · intro p hp
+    rw [hs.seen] at hp
+    rw [hpop]
+    unfold St.heapProgs
+    rw [hs.heap]
+    exact h.cover p hp
+  · intro F args v hp hkey j aj sj haj hsj hr hex
+    rw [hpop] at hp
+    rw [hs.keys] at hkey
+    rcases h.succs F args v hp hkey j aj sj haj hsj hr hex with ⟨q, h1, h2⟩ | ⟨h1, h2, h3⟩
+    · exact Or.inl ⟨q, hst _ _ _ h1, by rw [hs.seen]; exact h2⟩
+    · obtain ⟨a, b, c⟩ := hk sj hr h1 h2
+      exact Or.inr ⟨a, b, by rw [c]; exact h3⟩
+
+theorem Full.transfer {E : Env U π} {rank : UNT U → Nat} {s s' : St U π} {nt : UNT U} (h : Full E rank s nt)
+    (hs : Same s s' nt) (hst : Stable s s') (hk : ∀ sj, rank sj < rank nt → Kept s s' sj) : Full E rank s' nt :=
+  ⟨h.1.transfer hs hst, by rw [hs.succ]; exact h.2.1, h.2.2.transfer hs hst hk⟩
+
 theorem Uninit.transfer {s s' : St U π} {nt : UNT U} (h : Uninit s nt) (hs : Same s s' nt) : Uninit s' nt := by
   obtain ⟨a, b, c, d⟩ := h
   exact ⟨by rw [hs.init]; exact a, by rw [hs.heap]; exact b, by rw [hs.succ]; exact c, by rw [hs.seen]; exact d⟩
@@ -286,36 +344,38 @@ theorem Below.only {E : Env U π} {rank : UNT U → Nat} {r : Nat} {s s' : St U 
     (ho : Only x s s') (hst : Stable s s') (hx : r ≤ rank x) : Below E rank r s' := by
   intro nt hnt
   have hne : nt ≠ x := by intro e; subst e; omega
-  rcases h nt hnt with hu | ⟨hn, hl⟩
+  rcases h nt hnt with hu | hf
   · exact Or.inl (hu.transfer (ho nt hne))
-  · exact Or.inr ⟨hn.transfer (ho nt hne) hst, by rw [(ho nt hne).succ]; exact hl⟩
+  · exact Or.inr (hf.transfer (ho nt hne) hst
+      (fun sj hsj => Kept.of_same (ho sj (by intro e; subst e; omega))))
 
 /-- after a call at `y` (of rank `r0`) -/
 theorem Below.merge {E : Env U π} {rank : UNT U → Nat} {r r0 : Nat} {s s' : St U π} {y : UNT U} (h : Below E rank r s)
-    (hf : Frame rank r0 (some y) s s') (hst : Stable s s') (hb : Below E rank r0 s')
-    (hy : NTInv E s' y ∧ s'.succOf y ≠ []) : Below E rank r s' := by
+    (hf : Frame rank r0 (some y) s s') (hst : Stable s s') (hk : ∀ sj, Kept s s' sj) (hb : Below E rank r0 s')
+    (hy : Full E rank s' y) : Below E rank r s' := by
   intro nt hnt
   by_cases h1 : rank nt < r0
   · exact hb nt h1
   · by_cases h2 : nt = y
     · subst h2; exact Or.inr hy
     · have hsame := hf nt (by omega) (by intro e; cases e; exact h2 rfl)
-      rcases h nt hnt with hu | ⟨hn, hl⟩
+      rcases h nt hnt with hu | hn
       · exact Or.inl (hu.transfer hsame)
-      · exact Or.inr ⟨hn.transfer hsame hst, by rw [hsame.succ]; exact hl⟩
+      · exact Or.inr (hn.transfer hsame hst (fun sj _ => hk sj))
 
 theorem Below.mono {E : Env U π} {rank : UNT U → Nat} {r r' : Nat} {s : St U π} (h : Below E rank r s) (hr : r' ≤ r) :
     Below E rank r' s := fun nt hnt => h nt (by omega)
 
 /-- after a call that leaves the ranks from `r0` on alone -/
 theorem Below.merge_none {E : Env U π} {rank : UNT U → Nat} {r r0 : Nat} {s s' : St U π} (h : Below E rank r s)
-    (hf : Frame rank r0 none s s') (hst : Stable s s') (hb : Below E rank r0 s') : Below E rank r s' := by
+    (hf : Frame rank r0 none s s') (hst : Stable s s') (hk : ∀ sj, Kept s s' sj) (hb : Below E rank r0 s') :
+    Below E rank r s' := by
   intro nt hnt
   by_cases h1 : rank nt < r0
   · exact hb nt h1
   · have hsame := hf nt (by omega) (by simp)
-    rcases h nt hnt with hu | ⟨hn, hl⟩
+    rcases h nt hnt with hu | hn
     · exact Or.inl (hu.transfer hsame)
-    · exact Or.inr ⟨hn.transfer hsame hst, by rw [hsame.succ]; exact hl⟩
+    · exact Or.inr (hn.transfer hsame hst (fun sj _ => hk sj))
 
 end PS.UHS
